@@ -20,7 +20,7 @@ class ToolError(Exception):
 
 
 def run_tlc(module, cfg, env=None, workers=1, timeout=600, extra=(), metadir=None,
-            java_opts="-Xss1g", heap="4g", stdout_path=None):
+            java_opts="-Xss1g", heap="4g", stdout_path=None, cwd=None):
     """Runs TLC in /verif/spec. Returns (returncode, output text)."""
     metadir = metadir or tempfile.mkdtemp(prefix="tlc-", dir=_ensure(WORK + "/tlc"))
     e = dict(os.environ)
@@ -33,10 +33,10 @@ def run_tlc(module, cfg, env=None, workers=1, timeout=600, extra=(), metadir=Non
     t0 = time.time()
     if stdout_path:
         with open(stdout_path, "w") as f:
-            p = subprocess.run(cmd, cwd=SPEC, env=e, stdout=f, stderr=subprocess.STDOUT)
+            p = subprocess.run(cmd, cwd=cwd or SPEC, env=e, stdout=f, stderr=subprocess.STDOUT)
         out = open(stdout_path, errors="replace").read()
     else:
-        p = subprocess.run(cmd, cwd=SPEC, env=e, stdout=subprocess.PIPE,
+        p = subprocess.run(cmd, cwd=cwd or SPEC, env=e, stdout=subprocess.PIPE,
                            stderr=subprocess.STDOUT)
         out = p.stdout.decode(errors="replace")
     shutil.rmtree(metadir, ignore_errors=True)
